@@ -23,7 +23,7 @@ from . import heap  # noqa: F401  (tier B layer)
 from .models import numpy_cvx, genexp, csvio, rng, pysets, occmap, npsort  # noqa: F401,E402
 
 ROOT = os.path.dirname(os.path.dirname(os.path.abspath(__file__)))
-CONTRACT_MODULES = ["numba_utils", "dissimilarity", "continuum", "alignment", "sampler", "cst", "recompute", "ordinal", "lazy", "statcats", "statgaps", "statinit", "statcustom"]
+CONTRACT_MODULES = ["numba_utils", "dissimilarity", "continuum", "alignment", "sampler", "cst", "recompute", "ordinal", "lazy", "statcats", "statgaps", "statinit", "statcustom", "getitem"]
 VENV_PY = "/venv/bin/python"
 
 
